@@ -89,7 +89,7 @@ REGISTRY = {
     },
     "C11": {
         "level": "proof",
-        "modules": ["CoCoVerif.Props.C11"],
+        "modules": ["CoCoVerif.Props.C11", "CoCoVerif.Props.C11Full"],
         "theorems": _T["C11"],
         "rule": "cases = the assembler command line matrix of C10 restricted to what gets written: raw binary = image byte for byte; cassette / disk image "
                 "parsed by the reference readers: last file = (image, load = exec = origin, name = NAM or --name padded/truncated to 8, case-insensitive, "
@@ -161,13 +161,13 @@ REGISTRY = {
         "level": "proof",
         "family": "dsk",
         "modules": ["CoCoVerif.Props.C07", "CoCoVerif.Props.C08"],
-        "theorems": [P + "C07_partial", P + "C07_write_list", P + "C07_reader_partial", P + "C07_finding_zeroSector", P + "C07_Statement_false", P + "C08_full"],
+        "theorems": [P + "C07_full", P + "C07_reader_full", P + "C07_partial", P + "C07_write_list", P + "C07_reader_partial", P + "C07_finding_zeroSector_fixed", P + "C08_full"],
         "rule": "cases = seeded histories of 1..5 files (ML / BASIC / ASCII, names 1..12 letters/digits either case, lengths within 12 bytes of "
                 "multiples of 2304 and 256 and random, arbitrary content) under the default, ascending, descending and shuffled fill orders, "
                 "written and listed back (dsk.rt); well-formed fragmented images built from the format description with random disjoint chains and "
                 "slots (dsk.frag); damaged images (dsk.corrupt); a length sweep (dsk.sweep) in the thorough tier; distinct = distinct (stream, input, outcome) digest",
         "assumptions": ["names/extensions are ASCII; files other than machine language carry no load/exec address (the format has no field for them)",
-                        "reader completeness (b) excludes ASCII files whose last-granule marker is $C0 (K_C07_zeroSectorAscii); the tool never writes those"],
+                        ],
     },
     "C08": {
         "level": "proof",
@@ -311,12 +311,16 @@ MANIFEST_TEXT = {'C02': {'text': 'Lean: C02_full_v2 : C02_Statement_v2 (Props/C0
          'note': 'known finding G1; named remainder: OS write atomicity, os.path.exists races',
          'technique': 'Lean 4 proof over an abstract host file system (frame + guard theorem for open/add/save) + differential runs of both command lines on '
                       'real files + format-spec classification oracle'},
- 'C11': {'text': 'Lean: C11_bin (the raw binary written to a fresh path is the assembled image), C11_cas / C11_dsk (the file written is Cas.write [f] / '
-                 'Dsk.write [f] for f = (name, image, load = exec = origin); with C14/C06 resp. C08/C07 it is well formed and lists exactly that file), '
-                 "C11_name_source / C11_name_arg, C11_load_org / C11_load_none (the origin's hex path gives the right 16-bit address), C11_noname, C11_all, "
-                 'C11_partial.',
+ 'C11': {'text': 'Lean: C11_Statement_holds : C11_Statement (Props/C11Full) - for every accepted program, fresh target path and ASCII name: the raw binary '
+                 'written is the assembled image (C11_bin), the cassette / disk file written is Cas.write [f] / Dsk.write [f] for f = (name, image, load = '
+                 'exec = origin) and, with C14/C06 resp. C08/C07, is well formed and lists exactly that file (C11_cas / C11_dsk), the name is NAM or --name '
+                 '(C11_name_source / C11_name_arg), without a name no cassette or disk file is created (C11_noname). The two former hypotheses about the '
+                 "assembler's output are theorems now: C11_image_bytes (Lemmas/ImageBytes: every byte of every image is below 256 - invariant Value.MOK "
+                 "through parser, resolve, translate, PCR loop, fixOne / fitWidth) and C11_origin_lt (the origin's address as main derives it from the hex "
+                 'string is below 65536). C11_orgLate_no_file: a rejected program gives exit 1 and writes nothing.',
          'design_ref': 'DESIGN.md section 5 C11',
-         'note': 'hypotheses of C11_partial: image bytes < 256 and origin < 65536 (originAddr_lt_cases discharges the ORG spellings); E1 for an empty program',
+         'note': 'hypotheses left: the target path is new (C10 covers existing targets) and the name is ASCII (input restriction); E1 for an empty program; '
+                 'the entry address is the origin (the tool never uses the END operand)',
          'technique': 'Lean 4 proof (glue lemmas composing the assembler model with C06/C07/C08/C14) + differential command-line runs + reference-reader '
                       'oracle'},
  'C16': {'text': "Lean: C16_to_cas / C16_to_dsk / C16_to_bin (the converted image is the writer's image of exactly the selected files of the source in source "
@@ -385,12 +389,15 @@ MANIFEST_TEXT = {'C02': {'text': 'Lean: C02_full_v2 : C02_Statement_v2 (Props/C0
          'note': 'known finding C2 (lists only); D3 repaired by d74c37d; trusted: Lean kernel, correspondence, byte-exact oracle on the emitted IMAGE',
          'technique': 'Lean 4 proof (data-directive emission lemmas by induction over value lists / string / count) + differential correspondence + byte-exact '
                       'oracle'},
- 'C07': {'text': 'Lean theorems C07_write_list (for EVERY valid fill order and file list: list(write fs) = norm fs) and C07_reader_partial (the reader returns '
-                 'exactly what the reference reader Spec.DiskBasic.read finds on ANY image satisfying Spec.DiskBasic.Fsck, chains in any order, not adjacent), '
-                 'proved from an invariant over operation histories on the flat 161,280-byte buffer. One exclusion (ASCII file with a $C0 last-granule '
-                 'marker). Tie: differential runs on written, fragmented and damaged images every run.',
+ 'C07': {'text': 'Lean theorem C07_full : C07_Statement - (a) C07_write_list: for EVERY valid fill order and file list list(write fs) = norm fs; (b) '
+                 'C07_reader_full: the reader returns exactly what the reference reader Spec.DiskBasic.read finds on ANY image satisfying Spec.DiskBasic.Fsck, '
+                 "chains in any order, not adjacent, including last-granule markers that say 'no sector in use' ($C0) - the former exclusion "
+                 'K_C07_zeroSectorAscii is gone since fix 1246755 (C07_finding_zeroSector_fixed: the tool had returned 2048 bytes of filler for such an ASCII '
+                 'file). Proved from an invariant over operation histories on the flat 161,280-byte buffer. Tie: differential runs on written, fragmented '
+                 '(incl. $C0 markers) and damaged images every run.',
          'design_ref': 'DESIGN.md section 5 C07, section 6 F',
-         'note': 'model = disk.py after the fix: commits (reader follows the FAT chain); trusted: Spec/DiskBasic.lean, Lean kernel, sampled correspondence',
+         'note': 'no exclusion left; model = disk.py after the fix: commits (reader follows the FAT chain; zero-sector marker); trusted: Spec/DiskBasic.lean, '
+                 'Lean kernel, sampled correspondence',
          'technique': 'Lean 4 proof (history invariant on the flat disk buffer, chain-walk induction) + differential correspondence + reference fsck/reader '
                       'oracle'},
  'C08': {'text': 'Lean theorem C08_full: for every fill order with entries < 68 and every sequence of stored files, the image written satisfies '
